@@ -375,41 +375,6 @@ def rule_ident(ctx, rep):
                     r.ok("rule %s|%s(token text)" % (rule, c.callee.split("::")[-2] + "::from"), loc_str(b.f, c.loc))
 
 
-def rule_vars(ctx, rep):
-    r = rep.rule("R-C01-vars", "every match on VarDeclarations (the carrier of a VAR block's class and qualifier through flatten/drain/with) has one "
-                               "explicit arm per variant: no wildcard or catch-all binding arm can swallow a block kind", floor=4, floor_what="matches on VarDeclarations")
-    from vlib.mir import switch_info
-    VD = "ironplc_parser::vars::VarDeclarations"
-    adt = ctx.facts.adts.get(VD)
-    if not adt:
-        rep.error("R-C01-vars", "enum VarDeclarations not found")
-        return
-    names = [v["name"] for v in adt["variants"]]
-    n = {}
-    for b in sorted(ctx.prog.bodies.values(), key=lambda x: x.id):
-        if b.f["crate"] != "ironplc_parser":
-            continue
-        for i in sorted(b.reachable(0)):
-            si = switch_info(b, i)
-            if not (si and si["kind"] == "disc" and si.get("adt") == VD):
-                continue
-            # skip drop-elaboration re-tests of a discriminant already matched above
-            if any(d != i and (switch_info(b, d) or {}).get("adt") == VD and (switch_info(b, d) or {}).get("subject") == si["subject"] for d in b.dominators().get(i, set())):
-                continue
-            fn = norm(b.id)
-            k = n[fn] = n.get(fn, 0) + 1
-            inst = "%s|match#%d" % (fn.replace("ironplc_parser::", ""), k)
-            where = "%s:%d" % (b.f["file"], b.f["line"])
-            shared = {succ: labs for succ, labs in si["edges"].items() if len(labs) > 1 or labs == ["otherwise"]}
-            handled = {l for labs in si["edges"].values() for l in labs}
-            missing = [x for x in names if x not in handled]
-            if shared or missing:
-                what = sorted({l for labs in shared.values() for l in labs} | set(missing))
-                r.finding(inst + "|catch-all:" + ",".join(what), where, "variants %s are handled by a shared / wildcard arm: a block kind can pass through without its class or qualifier being applied" % what)
-            else:
-                r.ok(inst, where)
-
-
 COLLIDE_EXEMPT = {
     ("STANDARD_FUNCTION_BLOCK_NAME", "END_VAR"): "deliberate never-matching placeholder (`TODO this should be a list of standard function block names`): "
                                                   "the rule is meant to be unreachable until that list exists",
@@ -459,7 +424,8 @@ def run(ctx, rep):
     rule_label(ctx, rep, g)
     rule_sep(ctx, rep, g)
     rule_ident(ctx, rep)
-    rule_vars(ctx, rep)
+    from rules import c01_vars
+    c01_vars.run(ctx, rep)
     rule_collide(ctx, rep, g)
     from rules import c01_consume, c01_drain, c01_fold
     c01_consume.run(ctx, rep, g)
